@@ -17,7 +17,8 @@ def make_case(rng, n, density, fmt, e_scale):
     rows, cols, S, H = rows[order], cols[order], S[order], H[order]
     return {"n": int(n), "fmt": fmt, "rows": rows.tolist(), "cols": cols.tolist(), "S": S.tolist(), "H": H.tolist(),
             "V": rng.uniform(0.1, 4.0, n).tolist(), "E": (rng.normal(0, e_scale, n)).tolist(),
-            "D": float(rng.uniform(0.01, 3)), "T": float(rng.uniform(150, 450))}
+            "D": float(rng.uniform(0.01, 3)), "T": float(rng.uniform(150, 450)),
+            "shift": float(rng.choice([0.0, 7.5, -300.0, 45000.0, -45000.0, 3700.0]))}
 
 
 def evaluate(case):
@@ -33,8 +34,19 @@ def evaluate(case):
     surf, dist = mk(S), mk(H)
     s0, h0, v0, e0 = surf.data.copy(), dist.data.copy(), V.copy(), E.copy()
     with quiet():
-        Q = SQRA(E, V, dist, surf).get_rate_matrix(D, T)
+        sq = SQRA(E, V, dist, surf)
+        Q = sq.get_rate_matrix(D, T)
+        # purity / linearity in D / shift invariance on the SAME object and the same geometry arrays
+        Q2 = sq.get_rate_matrix(2.0 * D, T)
+        Q3 = SQRA(E + case.get("shift", 0.0), V, dist, surf).get_rate_matrix(D, T)
+        Q4 = sq.get_rate_matrix(D, T)
     Qd = Q.toarray()
+    if not np.allclose(Q2.toarray(), 2.0 * Qd, rtol=1e-9, atol=0):
+        return "not linear in D (or a second call on the same object gives another matrix)"
+    if not np.array_equal(Q4.toarray(), Qd):
+        return "a repeated call on the same object returns a different matrix"
+    if not np.allclose(Q3.toarray(), Qd, rtol=1e-6, atol=1e-300):
+        return f"changes when the constant {case.get('shift', 0.0)} is added to all energies"
     exp = np.zeros((n, n))
     beta = 1000 / (2 * kB * N_A * T)
     for r, c, s, h in zip(rows, cols, S, H):
